@@ -461,4 +461,67 @@ pub fn v_map_find_owned<T: Copy, U, F: Fn(T) -> U, G: Fn(&U) -> bool>(s: &[T], f
 pub assume_specification<T, F: FnOnce() -> Option<T>> [Option::<T>::or_else] (a: Option<T>, f: F) -> (r: Option<T>)
     requires a is None ==> f.requires(()),
     ensures a is Some ==> r == a, a is None ==> f.ensures((), r);
+
+/// R-fmt helper for `format!(LIT, a, b)` with two string arguments
+#[verifier::external_body]
+pub fn v_format2_str(lit: &str, a: &str, b: &str) -> (r: String)
+    ensures r@ == crate::verif_specs::spec_fmt2(lit@, a@, b@)
+{
+    match lit {
+        "{}_{}" => format!("{}_{}", a, b),
+        _ => unreachable!("R-fmt applied to an unknown literal"),
+    }
 }
+/// R-std: `FunctionBody::field(a, b)` takes `impl Into<String>` arguments (cannot be named in an assume_specification);
+/// trusted wrapper whose body is the original call
+#[verifier::external_body]
+pub fn v_function_body_field(field: String, function_name: String) -> (r: crate::semantic::types::FunctionBody)
+    ensures r == (crate::semantic::types::FunctionBody::Field { field: field, function_name: function_name })
+{
+    crate::semantic::types::FunctionBody::field(field, function_name)
+}
+}
+pub mod strset {
+use vstd::prelude::*;
+verus!{
+broadcast use super::group_pyxis_axioms;
+/// R-std: `s.iter().map(f).collect::<HashSet<String>>()` (verified)
+pub fn v_map_collect_string_set<T, F: Fn(&T) -> String>(s: &[T], f: F, Ghost(vals): Ghost<Seq<String>>) -> (r: std::collections::HashSet<String>)
+    requires
+        vals.len() == s@.len(),
+        forall|i: int| 0 <= i < s@.len() ==> f.requires((&#[trigger] s@[i],)),
+        forall|i: int, o: String| 0 <= i < s@.len() && #[trigger] f.ensures((&s@[i],), o) ==> o == vals[i],
+    ensures r@ == vals.to_set(),
+{
+    let mut out: std::collections::HashSet<String> = std::collections::HashSet::new();
+    let mut i: usize = 0;
+    while i < s.len()
+        invariant
+            i <= s.len(), vals.len() == s@.len(),
+            out@ == vals.take(i as int).to_set(),
+            forall|k: int| 0 <= k < s@.len() ==> f.requires((&#[trigger] s@[k],)),
+            forall|k: int, o: String| 0 <= k < s@.len() && #[trigger] f.ensures((&s@[k],), o) ==> o == vals[k],
+        decreases s.len() - i,
+    {
+        let x = f(&s[i]);
+        out.insert(x);
+        proof {
+            assert(vals.take(i as int + 1) == vals.take(i as int).push(vals[i as int]));
+            assert(vals.take(i as int).push(vals[i as int]).to_set() =~= vals.take(i as int).to_set().insert(vals[i as int])) by {
+                let a = vals.take(i as int); let v = vals[i as int];
+                assert forall|x: String| a.push(v).to_set().contains(x) <==> a.to_set().insert(v).contains(x) by {
+                    if a.push(v).contains(x) { let j = choose|j: int| 0 <= j < a.push(v).len() && a.push(v)[j] == x; if j < a.len() { assert(a[j] == x); } }
+                    if a.contains(x) { let j = choose|j: int| 0 <= j < a.len() && a[j] == x; assert(a.push(v)[j] == x); }
+                    if x == v { assert(a.push(v)[a.len() as int] == x); }
+                }
+            }
+            assert(out@ =~= vals.take(i as int + 1).to_set());
+        }
+        i += 1;
+    }
+    proof { assert(vals.take(s@.len() as int) == vals); }
+    out
+}
+}
+}
+#[allow(unused_imports)] pub use strset::v_map_collect_string_set;
